@@ -116,6 +116,12 @@ def runStreamDuplex (t : String) (stall : Nat) : String :=
 
 def runStream (ws : List String) : String :=
   match ws with
+  | ["earlyws"] =>
+    -- four messages already buffered inside the codec when the connection becomes ready (they arrived with the
+    -- handshake answer): the receive loop that follows the handshake in the same readiness event returns them
+    let ms : List Bytes := [List.replicate 5 1, [], List.replicate 5 2, List.replicate 128 3]
+    let r := wsReceive { sock := [], buf := ms.map some } [.wouldBlock] (ms.length + 3)
+    s!"delivered={r.outs.length}/{ms.length}"
   | ["slowreader", t, "boundary"] =>
     -- a message whose frame fills the read buffer exactly, a 10-byte one behind it, both queued at once
     let big : Bytes := (List.range (if t = "F" then 65532 else 65535)).map fun i => ((i * 7) % 256).toUInt8
